@@ -164,7 +164,7 @@ pub async fn scenario(events: Vec<Ev>) -> Obs {
             Ev::Post { txn, .. } | Ev::Commit(txn) | Ev::Rollback(txn) => model.live(*txn),
             Ev::X1 => !coord.reject_next_discharge,
             Ev::X2 => model.live(1),
-            Ev::SessionEnd | Ev::X3 => false,
+            Ev::SessionEnd | Ev::X3 | Ev::CloseLink(_) | Ev::AttachReuse(_) => false,
         };
         if !enabled {
             break;
@@ -276,7 +276,7 @@ pub async fn scenario(events: Vec<Ev>) -> Obs {
                 drop(txs[0].take());
                 model.abort(1);
             }
-            Ev::SessionEnd | Ev::X3 => {}
+            Ev::SessionEnd | Ev::X3 | Ev::CloseLink(_) | Ev::AttachReuse(_) => {}
         }
         // run to full quiescence (the coordinator's answers delivered and processed) - except after the drop of a
         // transaction handle: drop() is synchronous, so the application's next call follows it immediately and the
